@@ -15,7 +15,7 @@ RULE = ("Hypothesis-generated valid problems across all supported modes (determi
         "frame). Non-trivial = run in a non-default mode (noise, constraint, log transform or small budget) that executed "
         ">= 1 search step; distinct by scenario digest.")
 ASSUMPTIONS = [
-    "generated targets are well behaved (finite real scalars, positive finite SDs), x0 feasible with margin when a constraint is present",
+    "generated targets are well behaved (finite real scalars, positive finite SDs); with thin/boundary constraint regions a ValueError that names the infeasible start is the contract (C02), not a crash",
     "option switches documented as unsupported/unfinished (stobads, acq_hedge, periodic_vars, fun_values, output_fcn) are not generated",
 ]
 
@@ -23,7 +23,8 @@ PROFILE = scenario.profile(
     maxD=3,
     noise_modes=("none", "none", "auto", "declared", "specified", "specified"),
     specified_spellings=("both", "both", "alone"),
-    cons_x0=("margin",),
+    cons_x0=("margin", "margin", "margin", "snap_only", "boundary"),
+    specified_noise_size=True,
     p_cons=0.35,
     p_subdesign=0.04,
     extra_budget=(0, 60),
@@ -57,7 +58,13 @@ def body(scn, rare=None):
         kw = rare_kwargs(scn, rare)
     tr = harness.run(scn, **kw)
     v = []
-    if tr.ctor_exc is not None or tr.run_exc is not None:
+    expected_rejection = False
+    if tr.ctor_exc is not None and scn.get("cons") is not None and scn["cons"].get("x0cls") != "margin" and tr.ctor_exc["type"] == "ValueError" \
+            and ("does not satisfy non-bound constraints" in tr.ctor_exc["msg"] or "does no longer satisfy non-bound constraint" in tr.ctor_exc["msg"]):
+        expected_rejection = True  # thin / boundary regions: the start may legitimately be infeasible (C02 decides whether it is)
+    if expected_rejection:
+        pass
+    elif tr.ctor_exc is not None or tr.run_exc is not None:
         v.append(runlevel.exc_violation(tr))
     elif tr.result is None or type(tr.result).__name__ != "OptimizeResult":
         v.append(viol("no-result", f"optimize() returned {type(tr.result).__name__}"))
@@ -68,6 +75,10 @@ def body(scn, rare=None):
     labs.append(cell)
     if scn.get("budget_cls") == "subdesign":
         labs.append("budget=subdesign")
+    if expected_rejection:
+        labs.append("expected-x0-rejection")
+    if scn.get("cons") is not None and scn["cons"].get("x0cls") != "margin":
+        labs.append("cons=thin-or-boundary")
     if rare:
         labs.append("rare=" + rare["kind"])
         labs += [f"rare-hit:{k}" for k in getattr(tr, "rare_hits", [])]
